@@ -84,6 +84,13 @@ class Cond:
                         elif isinstance(args[p], int):
                             args[p] += 1
             from vf import rt as _rt
+            in_range = True
+            for p_, (lo_, hi_) in self.ranges.items():
+                v_ = args.get(p_)
+                if isinstance(v_, int) and not isinstance(v_, bool) and not (lo_ <= v_ <= hi_):
+                    in_range = False
+            if not in_range:
+                continue
             if all(eval(e, {'_rt': _rt}, dict(args)) for e in self.pre):  # noqa: S307
                 return args
         raise RuntimeError('could not sample inputs for ' + self.name)
